@@ -51,10 +51,15 @@ struct Tracked {
 
     Tracked() : magic(LIVE), val(0) { reg().add(0, +1); }
     Tracked(long v) : magic(LIVE), val(v) { reg().add(v, +1); }           // NOLINT: implicit on purpose
-    Tracked(const Tracked &o) : magic(LIVE), val(o.checkedVal()) { reg().add(val, +1); }
-    Tracked(Tracked &&o) noexcept : magic(LIVE), val(o.checkedVal()) {
+    // the source is inspected BEFORE any member of the new object is written: the source may be the very storage the new
+    // object is constructed in (placement-new from an element that was just destroyed there)
+    Tracked(const Tracked &o) { long v = o.checkedVal(); magic = LIVE; val = v; reg().add(val, +1); }
+    Tracked(Tracked &&o) noexcept {
+        long v = o.checkedVal();
+        bool self = &o == this;
+        magic = LIVE; val = v;
         reg().add(val, +1);
-        o.becomeShell();
+        if (!self) o.becomeShell();
     }
     Tracked &operator=(const Tracked &o) {
         if (this == &o) return *this;
